@@ -307,3 +307,208 @@ func checkGenericDocumentNumbers(c *core.Ctx, r *core.Report) {
 	}
 	r.Floor("NUMBERS", "generic documents decoded and re-encoded on the ingest paths", n, 1)
 }
+
+// checkFlattenerDispatch — FLATTEN: the JSON flattener turns every key of a document into a column.  In the per-key
+// callback of ParseRawJsonObject every successful return is preceded by the hand-over of the key's value to one of the
+// value handlers (the recursion for objects and arrays, parseSingleString / Number / Bool / Null): no key is dropped by
+// an early `return nil`.  (The one legitimate exclusion, the root-level timestamp field, is made inside the value
+// handlers on the full dotted column name; a test on the leaf key in the callback would fire at every depth.)
+func checkFlattenerDispatch(c *core.Ctx, r *core.Report) {
+	outer := c.Fn(pkgWriter, "ParseRawJsonObject")
+	handlers := map[types.Object]bool{}
+	for _, n := range []string{"ParseRawJsonObject", "parseNonJaegerRawJsonArray", "parseSingleString", "parseSingleNumber", "parseSingleBool", "parseSingleNull"} {
+		handlers[c.Obj(pkgWriter, n)] = true
+	}
+	n := 0
+	for _, cl := range core.Closures(outer) {
+		if len(cl.Params) < 3 {
+			continue
+		}
+		n++
+		var early *ssa.Return
+		core.WalkForward(cl, nil, func(in ssa.Instruction) bool {
+			if ci, ok := in.(ssa.CallInstruction); ok {
+				if f := core.CalleeFunc(ci); f != nil && handlers[f.Origin()] {
+					return false
+				}
+			}
+			if ret, ok := in.(*ssa.Return); ok && core.ReturnSuccess(ret) != core.No && early == nil {
+				early = ret
+			}
+			return true
+		})
+		if early != nil {
+			r.Violation("FLATTEN", shortFn(outer)+":every-key-reaches-a-value-handler", c.Pos(early.Pos()), "the per-key callback of the JSON flattener can return successfully without handing the key's value to a value handler: the key (and, for an object or array, its whole subtree) is silently missing from the stored event")
+		} else {
+			r.OK("FLATTEN", shortFn(outer)+":every-key-reaches-a-value-handler", c.Pos(cl.Pos()), "every successful return of the callback is preceded by a value handler call")
+		}
+	}
+	r.Floor("FLATTEN", "per-key callbacks of the JSON flattener", n, 1)
+}
+
+// checkIndexTimestampKey — the timestamp field of a document depends on the index it goes to (jaeger-* indexes carry
+// their time in startTimeMillis; ProcessIndexRequestPle is the only place that knows the index), while GetNewPLE
+// always leaves a non-zero time behind (the configured key's value or the arrival time).  So the extraction with the
+// index's key has to run for EVERY event of the batch; whether its result or a fallback is stored is then decided by
+// the fallback discipline (clause 1).  In ProcessIndexRequestPle no iteration of the event loop can reach the next
+// one without having called ExtractTimeStamp.
+func checkIndexTimestampKey(c *core.Ctx, r *core.Report) {
+	fn := c.Fn(pkgEsWriter, "ProcessIndexRequestPle")
+	extract := c.Obj(pkgUtils, "ExtractTimeStamp")
+	calls := callsTo(fn, extract)
+	r.Floor("DEPENDS", "timestamp extractions in ProcessIndexRequestPle", len(calls), 1)
+	loops := core.Loops(fn)
+	for i, call := range calls {
+		construct := fmt.Sprintf("%s:extraction#%d-with-the-index's-key-runs-for-every-event", shortFn(fn), i+1)
+		lp := core.InnermostLoop(loops, call.Block())
+		if lp == nil {
+			r.Violation("DEPENDS", construct, c.Pos(call.Pos()), "the extraction with the index's timestamp key is not part of the loop over the batch's events")
+			continue
+		}
+		skipped := false
+		seen := map[*ssa.BasicBlock]bool{}
+		var work []*ssa.BasicBlock
+		for _, sc := range lp.Header.Succs {
+			if lp.Body[sc] {
+				work = append(work, sc)
+				seen[sc] = true
+			}
+		}
+		for len(work) > 0 {
+			x := work[len(work)-1]
+			work = work[:len(work)-1]
+			if x == call.Block() {
+				continue
+			}
+			for _, sc := range x.Succs {
+				if sc == lp.Header {
+					skipped = true
+				}
+				if lp.Body[sc] && !seen[sc] && sc != lp.Header {
+					seen[sc] = true
+					work = append(work, sc)
+				}
+			}
+		}
+		r.Check(!skipped, "DEPENDS", construct, c.Pos(call.Pos()),
+			"every iteration of the event loop calls ExtractTimeStamp with the index's key",
+			"an event can pass through ProcessIndexRequestPle without its time being extracted with the index's timestamp key (for instance because it already carries a time): the parse-time value, taken with the default key or the arrival time, is kept, so documents of an index with its own time field (jaeger-* spans: startTimeMillis) are stored with the arrival time")
+	}
+}
+
+// checkInputNotClobbered — OWN: ConvertSliceToMap builds the per-index batches of a bulk request from the list of all
+// parsed events, and the caller keeps using that list afterwards (it releases every event to the pool once).  The
+// helper must therefore not write into its input: no append in it grows a slice that may share the backing array of
+// the parameter (a bucket that starts as slice[:1] and is appended to overwrites the caller's later elements, so one
+// event is released twice and a later request stores one document twice and another not at all).  The same is
+// required of every slice-to-container helper of pkg/utils that returns a new container.
+func checkInputNotClobbered(c *core.Ctx, r *core.Report) {
+	n := 0
+	var bad []string
+	var badAt ssa.Instruction
+	for _, fn := range c.RepoFunctions() {
+		if core.FnPkgPath(fn) != core.ModPath+"/pkg/utils" || fn.Parent() != nil || fn.Blocks == nil {
+			continue
+		}
+		// returns a map or a fresh container (not "the same slice")
+		res := fn.Signature.Results()
+		if res.Len() == 0 {
+			continue
+		}
+		if _, isMap := res.At(0).Type().Underlying().(*types.Map); !isMap {
+			continue
+		}
+		var params []ssa.Value
+		for _, p := range fn.Params {
+			if _, ok := p.Type().Underlying().(*types.Slice); ok {
+				params = append(params, p)
+			}
+		}
+		if len(params) == 0 {
+			continue
+		}
+		n++
+		al := &core.Alias{C: c, Scope: func(f *ssa.Function) bool { return f == fn || f.Parent() == fn }}
+		for _, p := range params {
+			al.AddAny(p, nil)
+		}
+		al.Run()
+		for _, ci := range core.CallsIn(fn) {
+			bi, ok := ci.Common().Value.(*ssa.Builtin)
+			if !ok || bi.Name() != "append" || len(ci.Common().Args) == 0 {
+				continue
+			}
+			if al.Has(ci.Common().Args[0]) {
+				bad = append(bad, shortFn(fn))
+				if badAt == nil {
+					badAt = ci
+				}
+			}
+		}
+	}
+	if len(bad) > 0 {
+		r.Violation("OWN", "utils:container-builders-do-not-append-into-their-input", c.Pos(badAt.Pos()), "a helper that builds a new container from a slice appends to a slice that may share the input's backing array ("+strings.Join(bad, ", ")+"): the caller's list is overwritten behind its back; in the bulk handler the list of parsed events then holds one event twice, it is released to the pool twice, and a later request stores one document twice and another not at all while every item says created")
+	} else {
+		r.OK("OWN", "utils:container-builders-do-not-append-into-their-input", "-", fmt.Sprintf("%d map-building helpers with slice parameters, no append grows a slice that may alias a parameter", n))
+	}
+	r.Floor("OWN", "map-building helpers of pkg/utils with slice parameters", n, 1)
+}
+
+// checkSharedItemTemplate — the bulk response is a slice of items; every successful action's slot holds the SAME
+// package-level map (resp_status_201), shared by all requests of the process.  Nothing may therefore write through an
+// item: a map update whose map may be that shared template (reached through the items slice) changes the answer of
+// every other item of this request and of all later requests.
+func checkSharedItemTemplate(c *core.Ctx, r *core.Report) {
+	tmpl := c.Global(pkgEsWriter, "resp_status_201")
+	al := &core.Alias{C: c, AnyType: true, Scope: func(f *ssa.Function) bool {
+		for f.Parent() != nil {
+			f = f.Parent()
+		}
+		return core.FnPkgPath(f) == core.ModPath+"/"+pkgEsWriter
+	}}
+	nSeeds := 0
+	initFn := map[*ssa.Function]bool{}
+	for _, fn := range c.RepoFunctions() {
+		if core.FnPkgPath(fn) != core.ModPath+"/"+pkgEsWriter {
+			continue
+		}
+		for _, b := range fn.Blocks {
+			for _, in := range b.Instrs {
+				if ld, ok := in.(*ssa.UnOp); ok && ld.X == ssa.Value(tmpl) {
+					al.AddAny(ld, nil)
+					nSeeds++
+				}
+				// the function that builds the template (stores the fresh map into the global) may fill it
+				if st, ok := in.(*ssa.Store); ok && st.Addr == ssa.Value(tmpl) {
+					initFn[fn] = true
+				}
+			}
+		}
+	}
+	al.Run()
+	var bad ssa.Instruction
+	nUpd := 0
+	for _, fn := range c.RepoFunctions() {
+		if core.FnPkgPath(fn) != core.ModPath+"/"+pkgEsWriter || initFn[fn] {
+			continue
+		}
+		for _, b := range fn.Blocks {
+			for _, in := range b.Instrs {
+				mu, ok := in.(*ssa.MapUpdate)
+				if !ok {
+					continue
+				}
+				nUpd++
+				if al.Has(mu.Map) && bad == nil {
+					bad = in
+				}
+			}
+		}
+	}
+	r.Floor("OWN", "uses of the shared created-item template", nSeeds, 1)
+	if bad != nil {
+		r.Violation("OWN", "writer:shared-created-item-template-is-never-written-through", c.Pos(bad.Pos()), "a map update is made through a value that may be the process-wide `created` item template (every successful slot of the items slice holds that one map): the first such write changes the status of every other item of the request and of all later bulk requests, which are then reported as failed although their documents are stored")
+	} else {
+		r.OK("OWN", "writer:shared-created-item-template-is-never-written-through", "-", fmt.Sprintf("%d map updates in the package, none through a value that may alias the template", nUpd))
+	}
+}
